@@ -27,6 +27,11 @@ ConfsSched1 == {c \in AllConfs : c.lru /\ c.onDelete = "rec" /\ c.maxElem = 0 /\
 ConfsSched  == {c \in AllConfs : c.lru /\ c.onDelete = "rec" /\ c.maxElem = 0 /\
                    ((c.maxCount = 1 /\ c.maxSize = 0) \/ (c.maxCount = 2 /\ c.maxSize = 0) \/ (c.maxCount = 0 /\ c.maxSize = 5))}
 MCVals1 == {K("v1", 1)}
+(* Call-backs that may panic ("fault"): the OnDelete window ends with the Set *)
+(* unwinding instead of re-taking the lock.                                   *)
+ConfsFault == {c \in [maxSize : {0, 5}, maxElem : {0}, maxCount : {0, 1, 2},
+                       lru : {TRUE}, onDelete : {"fault"}] : c.maxSize # 0 \/ c.maxCount # 0}
+ConfsFault1 == {c \in ConfsFault : c.maxCount = 1 /\ c.maxSize = 0}
 
 MaxGets == 3
 GetBound == hit + miss <= MaxGets
